@@ -325,7 +325,8 @@ def widget_spec(styles=("kitty", "kitty", "kitty", "iterm2", "iterm2", "block"))
         "sub": st.sampled_from([False, False, True]),  # instance of an application subclass of UrwidImage
         "fmt": st.sampled_from(["", "", "<", ">", ".^", "._", "<.^", ">._"]),
         # style-specific part of the format spec (graphics styles only; LINES is needed for trimming)
-        "sfmt": st.sampled_from(["", "", "+L", "+L", "+Lc1", "+Lm1"]),
+        # "z<N>": a z-index in a widget's specifier is documented to be ignored (each widget gets its own)
+        "sfmt": st.sampled_from(["", "", "+L", "+L", "+Lc1", "+Lm1", "+Lz5", "+z77777"]),
     })
 
 
@@ -438,7 +439,10 @@ def make_widget(spec, force):
         style = "iterm2"
     cls = {"kitty": I.KittyImage, "iterm2": I.ITerm2Image, "block": I.BlockImage}[style]
     image = cls(gen.build_image(spec["img"]))
-    fmt = spec["fmt"] + (spec.get("sfmt", "") if style != "block" else "")
+    sfmt = spec.get("sfmt", "")
+    if style == "iterm2" and "z" in sfmt:
+        sfmt = "+L"  # no z-index field in the iterm2 style
+    fmt = spec["fmt"] + (sfmt if style != "block" else "")
     wcls = SubImage if spec.get("sub") else W.UrwidImage
     return wcls(image, fmt, upscale=spec["upscale"]), style
 
@@ -934,6 +938,9 @@ class Lab:
                 if (x, y) in g1 or ((x, y) in g2 and self.missing_ok()):
                     continue  # under a graphics placement on both terminals
                 a, b = norm_cell(r1[x]), norm_cell(r2[x])
+                if a != b and vt.profile == "wezterm" and a[4] is not None and a[4] == b[4] and \
+                        any(w._ti_style_args.get("mix") for w in self.pool):
+                    continue  # same image cell; WezTerm keeps whatever text lies under an image drawn with mix
                 if a != b:
                     what = "image cell" if (a[4] is None) != (b[4] is None) else "text"
                     self.fail(f"cell {(x, y)} differs from a from-scratch drawing of the same canvas: terminal {a[:2] + a[4:]} vs "
